@@ -9,7 +9,8 @@ p="$1"; shift
 [ -f "$p" ] || { echo "no patch $p"; exit 2; }
 if ! git -C /repo diff --quiet; then echo "/repo has uncommitted changes"; exit 2; fi
 git -C /repo apply "$p" || { echo "patch does not apply"; exit 2; }
-trap 'git -C /repo checkout -- . ; git -C /repo clean -fdq -e target 2>/dev/null' EXIT
+# restore the tree AND rebuild, so that target/release/vcheck never stays a build of the seeded change
+trap 'git -C /repo checkout -- . ; git -C /repo clean -fdq -e target 2>/dev/null; (cd $V/harness && cargo build --release --offline >/dev/null 2>&1)' EXIT
 for prop in "$@"; do
   out=$(cd $V && VCHECK_QUIET=1 ./check "$prop" --tier "${TIER:-quick}" 2>&1); rc=$?
   nv=$(echo "$out" | grep -c '^VIOLATION')
